@@ -23,6 +23,7 @@ fn dirs() -> (String, String, String) {
 
 fn server_units() -> Vec<Vec<String>> {
     let (d1, d2, dm) = dirs();
+    let cwd = std::env::current_dir().map(|p| p.to_string_lossy().to_string()).unwrap_or_else(|_| ".".into());
     let s = |x: &[&str]| x.iter().map(|y| y.to_string()).collect::<Vec<_>>();
     vec![
         // simplest first: switches, then valid value flags, then invalid values, then lone flags
@@ -37,11 +38,14 @@ fn server_units() -> Vec<Vec<String>> {
         s(&["--duplicate-packets", "255"]), s(&["--duplicate-packets", "256"]), s(&["--duplicate-packets", "x"]),
         s(&["--bogus"]), s(&["word"]),
         s(&["-i"]), s(&["-p"]), s(&["-d"]), s(&["-rd"]), s(&["-sd"]), s(&["--duplicate-packets"]),
+        // values that coincide with a default: the working directory spelled out, an IPv4-mapped IPv6 address
+        s(&["-rd", &cwd]), s(&["-sd", &cwd]), s(&["-i", "::ffff:127.0.0.1"]),
     ]
 }
 
 fn client_units() -> Vec<Vec<String>> {
     let (d1, d2, dm) = dirs();
+    let cwd = std::env::current_dir().map(|p| p.to_string_lossy().to_string()).unwrap_or_else(|_| ".".into());
     let s = |x: &[&str]| x.iter().map(|y| y.to_string()).collect::<Vec<_>>();
     vec![
         s(&["a.txt"]), s(&["dir/b.txt"]), s(&["dir\\c.txt"]), s(&["/abs/d.txt"]), s(&["\\win\\e.txt"]),
@@ -51,6 +55,7 @@ fn client_units() -> Vec<Vec<String>> {
         s(&["-rd", &d1]), s(&["--receive-directory", &d2]),
         s(&["-rd", &dm]), s(&["-b", "x"]), s(&["-b", "-1"]), s(&["-w", "65536"]), s(&["-w", "x"]), s(&["-t", "x"]), s(&["-p", "65536"]), s(&["-i", "bad"]),
         s(&["-i"]), s(&["-p"]), s(&["-b"]), s(&["-w"]), s(&["-t"]), s(&["-rd"]),
+        s(&["-i", "::ffff:127.0.0.1"]), s(&["--ip-address", "::ffff:7f00:1"]), s(&["-rd", &cwd]),
     ]
 }
 
